@@ -676,15 +676,15 @@ func (u *Unit) evalSpecCall(env *SpecEnv, c *ECall) Value {
 		switch ut := a.Ty.Underlying().(type) {
 		case *types.Slice:
 			if name == "len" {
-				return Value{T: w.SLen(a.T), Ty: intType}
+				return Value{T: u.fromInt(w.SLen(a.T), intType), Ty: intType}
 			}
-			return Value{T: w.SCap(a.T), Ty: intType}
+			return Value{T: u.fromInt(w.SCap(a.T), intType), Ty: intType}
 		case *types.Basic:
-			return Value{T: w.StrLen(a.T), Ty: intType}
+			return Value{T: u.fromInt(w.StrLen(a.T), intType), Ty: intType}
 		case *types.Array:
-			return Value{T: IntLit(ut.Len()), Ty: intType}
+			return Value{T: u.fromInt(IntLit(ut.Len()), intType), Ty: intType}
 		case *types.Map:
-			return Value{T: u.specMapLen(env, a), Ty: intType}
+			return Value{T: u.fromInt(u.specMapLen(env, a), intType), Ty: intType}
 		}
 		u.specErr("len of %s", a.Ty)
 	case "fresh":
